@@ -46,8 +46,8 @@ CONSTANTS PlanName, \* which set of scenario blocks Init enumerates (see Plan); 
           GPost,    \* ... and up to GPost calls after subscribe() returned
           GRaise    \* set of k: the k-th invocation of a user callback raises (0: none)
 
-VARIABLES blk, nd, cfg, ctx, g, fix, s
-vars == <<blk, nd, cfg, ctx, g, fix, s>>
+VARIABLES blk, nd, cfg, ctx, g, fix, open, s
+vars == <<blk, nd, cfg, ctx, g, fix, open, s>>
 
 (* ---- shapes ---------------------------------------------------------------------------- *)
 Nd(k, a, b, n) == [k |-> k, a |-> a, b |-> b, n |-> n]
@@ -93,14 +93,7 @@ Fam(f, NS, OT) ==
                        \cup {Rep(Leaf("one"))}
                        \cup {Bin(c, Leaf(p), Leaf(q)) : c \in Comb2 \cup Comb3 \cup HO, p \in Inf, q \in OT}
                        \cup {Bin(c, Leaf(q), Leaf(p)) : c \in Comb2 \cup Comb3 \cup HO, p \in Inf, q \in OT}
-    [] f = "rand"   ->      \* depth-3 pipelines for -simulate: too many to exhaust, every behaviour is one scenario
-         LET AllC == Comb2 \cup Comb3 \cup HO
-             T0 == {Leaf(p) : p \in Inf \cup OT}
-             T1 == T0 \cup {Un("map", 0, t) : t \in T0} \cup {Un("take", n, t) : n \in NS, t \in T0}
-                      \cup {Bin(c, t, u) : c \in AllC, t \in T0, u \in T0}
-             HasInf(t) == \E i \in 1..Len(t) : t[i].k \in Inf IN
-         {Un("take", n, Bin(c, t, u)) : n \in NS, c \in AllC, t \in {x \in T1 : HasInf(x)}, u \in T1}
-         \cup {Un("take", n, Bin(c, u, t)) : n \in NS, c \in AllC, t \in {x \in T1 : HasInf(x)}, u \in T1}
+    [] f = "rand"   -> {<<Nd("take", 0, 0, n)>> : n \in NS}      \* only the root: the rest is grown by Build steps (for -simulate)
     [] f = "chaos"  -> {Leaf("chaos")}
     [] f = "chaos2" -> {Un("map", 0, Leaf("chaos")), Un("take", 2, Leaf("chaos")), Un("map", 0, Un("take", 1, Leaf("chaos")))}
     [] OTHER        -> {}
@@ -429,6 +422,7 @@ GChoices(t) == IF HasKind(t, "chaos")
 
 Init == /\ blk \in Plan(PlanName) /\ nd \in ShapesOf(blk) /\ cfg \in blk.cfgs /\ ctx \in blk.ctxs /\ g \in GChoices(nd)
         /\ fix \in (IF cfg = "cts" THEN BOOLEAN ELSE {FALSE})
+        /\ open = IF nd[1].k = "take" /\ nd[1].a = 0 THEN <<[p |-> 1, r |-> 1, d |-> 1]>> ELSE <<>>
         /\ s = LET a == Alloc(S0, 1, 0, 0, "na")
                    tail == <<F("apiend", 0, 0)>> \o (IF g.post # <<>> THEN <<F("post", 0, 1)>> ELSE <<>>)
                            \o (IF cfg = "vts" THEN <<F("drain", 0, 3)>> ELSE <<>>)        \* scheduler.start()
@@ -436,9 +430,23 @@ Init == /\ blk \in Plan(PlanName) /\ nd \in ShapesOf(blk) /\ cfg \in blk.cfgs /\
                IF ctx = "top" THEN [b EXCEPT !.stack = <<F("subscribe", 1, 0), F("subret", 0, 0)>> \o tail]
                ELSE [b EXCEPT !.stack = <<F("subscribe", 1, 0), F("subret", 0, 0), F("drain", 0, 1)>> \o tail, !.active["S"] = TRUE]
 
-Step == /\ ~Terminal /\ s' = Exec(s) /\ UNCHANGED <<blk, nd, cfg, ctx, g, fix>>
-Next == Step
-Spec == Init /\ [][Next]_vars /\ WF_vars(Step)
+\* -simulate only: grow a random pipeline below the root consumer, one node per step, before anything runs.
+\* open = the argument positions still to be filled (parent node, role, depth)
+MaxDepth == 3
+AllC == Comb2 \cup Comb3 \cup HO
+Build == /\ open # <<>>
+         /\ LET o == Head(open)  i == Len(nd) + 1
+                ks == IF o.d >= MaxDepth THEN Inf \cup blk.oth ELSE Inf \cup blk.oth \cup {"map", "take"} \cup AllC IN
+            \E k \in ks : \E n \in (IF k = "take" THEN blk.ns ELSE {0}) :
+               /\ nd' = Append(IF o.r = 1 THEN [nd EXCEPT ![o.p].a = i] ELSE [nd EXCEPT ![o.p].b = i], Nd(k, 0, 0, n))
+               /\ open' = Tail(open) \o (IF k \in {"map", "take"} THEN <<[p |-> i, r |-> 1, d |-> o.d + 1]>>
+                                         ELSE IF k \in AllC THEN <<[p |-> i, r |-> 1, d |-> o.d + 1], [p |-> i, r |-> 2, d |-> o.d + 1]>>
+                                         ELSE <<>>)
+         /\ UNCHANGED <<blk, cfg, ctx, g, fix, s>>
+\* (a grown pipeline without a never-ending source is of no interest: the behaviour just ends there)
+Step == /\ ~Terminal /\ open = <<>> /\ (\E i \in 1..Len(nd) : nd[i].k \in Inf \cup {"concatinf", "chaos"}) /\ s' = Exec(s) /\ UNCHANGED <<blk, nd, cfg, ctx, g, fix, open>>
+Next == Step \/ Build
+Spec == Init /\ [][Next]_vars /\ WF_vars(Next)
 
 (* ---- invariants of the model --------------------------------------------------------------- *)
 States3 == {"unset", "set", "disposed"}
@@ -490,6 +498,20 @@ Mn(a, b) == IF a <= b THEN a ELSE b
 Mx(a, b) == IF a >= b THEN a ELSE b
 Sat(x) == IF x >= INF THEN INF ELSE x
 Speaks(o) == o[1] > 0 \/ o[2]
+\* Hops(i): scheduling steps between subscribing to node i and its first element (a rough count that errs upwards)
+RECURSIVE Hops(_)
+Hops(i) ==
+  LET n == nd[i]  k == n.k IN
+  CASE k = "sync" -> 0
+    [] k \in {"loop", "resched", "one", "empty"} -> 1
+    [] k \in {"map", "defer", "share", "take", "takeuntil"} -> Hops(n.a)
+    [] k = "merge" -> 1 + Mn(Hops(n.a), Hops(n.b))
+    [] k \in {"concat", "concatinf"} -> 1 + Hops(n.a)
+    [] k = "amb" -> Mn(Hops(n.a), Hops(n.b))
+    [] k \in {"cl", "zip", "wlf"} -> Mx(Hops(n.a), Hops(n.b))
+    [] k = "skipuntil" -> Hops(n.b) + 1
+    [] k \in {"flatmap", "switchmap"} -> Hops(n.a) + Hops(n.b)
+    [] OTHER -> INF
 RECURSIVE Out(_)
 Out(i) ==
   LET n == nd[i]  k == n.k IN
@@ -511,11 +533,16 @@ Out(i) ==
     [] k = "zip" -> {<<Mn(o[1], q[1]), (o[2] /\ o[1] <= q[1]) \/ (q[2] /\ q[1] <= o[1])>> : o \in Out(n.a), q \in Out(n.b)}
     [] k = "skipuntil" -> {<<IF q[1] > 0 /\ o[1] = INF THEN INF ELSE 0, FALSE>> : o \in Out(n.a), q \in Out(n.b)}
     [] k \in {"flatmap", "switchmap"} ->
-         {<<IF o[1] = 0 \/ q[1] = 0 THEN 0 ELSE IF o[1] = INF \/ q[1] = INF THEN INF ELSE o[1] * q[1],
-            o[2] /\ (o[1] = 0 \/ q[2])>> : o \in Out(n.a), q \in Out(n.b)}
+         \* a never-ending outer source switches away from every inner source that needs more than one scheduling step
+         \* to speak (e.g. one that subscribes its own sources from a scheduled action): inherent in switching, C14 is silent
+         {IF k = "switchmap" /\ o[1] = INF /\ Hops(n.b) > 1 THEN <<0, FALSE>>
+          ELSE <<IF o[1] = 0 \/ q[1] = 0 THEN 0 ELSE IF o[1] = INF \/ q[1] = INF THEN INF ELSE o[1] * q[1],
+                 o[2] /\ (o[1] = 0 \/ q[2])>> : o \in Out(n.a), q \in Out(n.b)}
     [] OTHER -> {<<0, FALSE>>}                \* never, chaos
 \* with a user who disposes inside the k-th on_next: the pipeline ends if it delivers k elements (or completes before)
-Applicable == \A o \in Out(1) : o[2] \/ (g.dsp # 0 /\ o[1] >= g.dsp)
+\* (which presupposes that subscribe() hands the subscription out before the elements flow: called from inside a
+\* trampoline action, or on a virtual-time scheduler that is started afterwards)
+Applicable == \A o \in Out(1) : o[2] \/ (g.dsp # 0 /\ o[1] >= g.dsp /\ (ctx = "act" \/ cfg = "vts"))
 
 (* ---- reference verdict: which shapes the wiring lets terminate (stated independently of Exec) ---- *)
 \* Under the default configuration the trampoline runs producer actions in the order in which the
@@ -545,7 +572,8 @@ RefBounded ==
   CASE k \in {"merge", "concat", "amb", "takeuntil"} -> TRUE   \* the loop's own elements reach the consumer
     [] k \in {"cl", "skipuntil"} -> ka # "loop" \/ kb = "sync"  \* needs both; the second source is queued behind the first
     [] k = "zip" -> (CASE ka = "loop" -> kb = "sync"             \* needs both again and again: whatever the other side still
-                       [] kb = "loop" -> ka \in {"one", "sync"}  \* has to deliver must have been delivered before the loop starts
+                       [] kb = "loop" -> ka \in {"one", "sync"} \/ (ka = "resched" /\ nd[r].n = 1)   \* has to deliver must
+                                                                \* have been delivered before the loop starts
                        [] OTHER -> TRUE)
     [] k = "wlf" -> kb # "loop" \/ ka = "sync"                   \* children are subscribed before the parent (a parent that
                                                                 \* completes inside its subscribe call ends the pipeline first)
